@@ -33,6 +33,21 @@ type MRunner struct {
 	Streaming [NSlots]bool
 	// Links: link path -> target path of every symlink created so far (generation only)
 	Links map[string]string
+	// Addressed: every path that was an operand of a remove, rename, delete or move so far
+	// (generation only: records that a later replay would apply to rows of that name)
+	Addressed map[string]bool
+}
+
+// WasAddressedAbove reports whether p or one of its ancestors was an operand of a remove,
+// rename, delete or move earlier in the history.
+func (r *MRunner) WasAddressedAbove(p string) bool {
+	p = model.Clean(p)
+	for a := range r.Addressed {
+		if p == a || (len(p) > len(a) && p[:len(a)] == a && (a == "/" || p[len(a)] == '/')) {
+			return true
+		}
+	}
+	return false
 }
 
 // TouchesLink reports whether p is, contains or lies on the path of a symlink or its target.
@@ -82,6 +97,16 @@ func (r *MRunner) Do(s Step) (res MRes) {
 			return nil
 		}
 		return r.Slots[s.Slot]
+	}
+	switch s.Op {
+	case "remove", "removeall", "rename", "arch_delete", "arch_move":
+		if r.Addressed == nil {
+			r.Addressed = map[string]bool{}
+		}
+		r.Addressed[model.Clean(s.Path)] = true
+		if s.Path2 != "" {
+			r.Addressed[model.Clean(s.Path2)] = true
+		}
 	}
 	switch s.Op {
 	case "create", "openfile", "open":
